@@ -405,3 +405,6 @@ def replay(w):
         r = run_evolve({"kind": "evolve", "seed": w["seed"], "n": 1, "only_msg": w["msg"], "tree": tree_from_json(w["tree"])})
         return r.violations
     return replay_value(w, check_interleave, PROP, CONTRACTS)
+
+
+RULE += " Now and then 255..1000 unknown records in one message; 'large' and 'after failures' shards of the shared value driver."
